@@ -89,6 +89,11 @@ func orphans(r *ev.Run) {
 							r.Violation(c, "valid-hardware-cert-not-listed", fmt.Sprintf("right after it was accepted: err=%v", err), rec)
 							return
 						}
+						// both entry points have been used once while the certificate was good: whatever they remember must not outlive it
+						if sg, err := s.Signers(); err != nil || len(sg) == 0 {
+							r.Violation(c, "signers-fails-without-fault", fmt.Sprintf("right after the certificate was accepted: %d signers, err=%v", len(sg), err), rec)
+							return
+						}
 						// rearrange the underlying agent directly. Certificates of other keys that are NOT YSSHCA certificates, so that
 						// the no-upstream mode does not hide (and thereby complicate) anything.
 						ag.Keyring.RemoveAll()
